@@ -153,7 +153,9 @@ fn replay_fl<F: Fl>(opts: &HashMap<String, String>) -> Value {
                     Guarded::Ok(Ok(w)) => w,
                     _ => continue, // the adjacency checks own this failure
                 };
-                let query = Query { kind, entry, target, transpose, meth: m, repeat };
+                // builder chain order alternates: options first / closure first
+                let late = m != Meth::Plain && n_exec % 2 == 1;
+                let query = Query { kind, entry, target, transpose, meth: m, repeat, late };
                 let mut obs = run_query(&w, root, &query, &rej);
                 n_exec += 1;
                 let exp_ex = hist_edges(hist, exp_len);
@@ -197,7 +199,7 @@ fn replay_fl<F: Fl>(opts: &HashMap<String, String>) -> Value {
                     if *cnt <= bucket_cap && mismatches.len() < max_viol {
                         mismatches.push(json!({"flavour": F::NAME, "out": st.out, "inn": st.inn, "nval": nval,
                             "kind": kind.name(), "root": root, "dir": q["dir"], "cyc": cyc, "rej": q["rej"],
-                            "target": target.unwrap_or(0), "entry": entry.name(), "meth": meth_name(m), "builder_reused": repeat,
+                            "target": target.unwrap_or(0), "entry": entry.name(), "meth": meth_name(m), "builder_reused": repeat, "closure_first": late,
                             "res": obs.res, "rt": res_tag(&obs.res), "examined": obs.examined,
                             "expected_res": exp_res, "expected_examined": exp_ex, "graph_unchanged": unchanged}));
                     }
@@ -346,12 +348,13 @@ fn record_fl<F: Fl>(opts: &HashMap<String, String>) -> Value {
                 };
                 (if rng.gen_bool(0.6) { Entry::SearchPath } else { Entry::Search }, t)
             };
-            let query = Query { kind, entry, target, transpose, meth, repeat: false };
+            let late = meth != Meth::Plain && rng.gen_bool(0.5);
+            let query = Query { kind, entry, target, transpose, meth, repeat: false, late };
             let obs = run_query(&w, root, &query, &rej);
             let mut rejv: Vec<Triple> = rej.iter().cloned().collect();
             rejv.sort();
             let mut ev = json!({"ev": "query", "kind": kind.name(), "root": root, "dir": if transpose { "in" } else { "out" },
-                "cyc": cyc, "rej": rejv, "target": target.unwrap_or(0), "entry": entry.name(), "meth": meth_name(meth),
+                "cyc": cyc, "rej": rejv, "target": target.unwrap_or(0), "entry": entry.name(), "meth": meth_name(meth), "closure_first": late,
                 "res": obs.res, "rt": res_tag(&obs.res)});
             if let Some(ex) = obs.examined {
                 ev["examined"] = json!(ex);
@@ -564,7 +567,7 @@ fn one_case_fl<F: Fl>(c: &Value) -> Value {
         let q = Query { kind: Kind::parse(c["kind"].as_str().unwrap()), entry: Entry::parse(c["entry"].as_str().unwrap()),
             target: if t == 0 { None } else { Some(t as K) }, transpose: c["dir"] == json!("in"),
             meth: match c["meth"].as_str().unwrap_or("plain") { "plain" => Meth::Plain, "for_each" => Meth::ForEach, _ => Meth::Filter },
-            repeat: c["builder_reused"].as_bool().unwrap_or(false) };
+            repeat: c["builder_reused"].as_bool().unwrap_or(false), late: c["closure_first"].as_bool().unwrap_or(false) };
         let mut o = run_query(&w, c["root"].as_u64().unwrap() as K, &q, &rej);
         if q.repeat {
             // the builder ran twice: a pure traversal examines the same edges both times
